@@ -205,11 +205,14 @@ def read_cgsmiles(pattern):
             # eon => end of next
             # we find the next character that starts a new residue, ends
             # a branch or ends the complete pattern
-            eon = _find_next_character(pattern, ['[', ')', '(', '}'], stop)
+            eon = _find_next_character(pattern, ['[', ')', '(', '}'] + list(symbol_to_order), stop)
             # between the expansion character and the eon character
             # is any number that corresponds to the number of times
             # (i.e. monomers) that this atom should be added
             n_mon = int(pattern[stop+1:eon])
+            # the expansion may be followed by the bond order to the next node
+            if eon < len(pattern) and pattern[eon] in symbol_to_order:
+                bond_order = symbol_to_order[pattern[eon]]
         else:
             n_mon = 1
 
@@ -232,7 +235,10 @@ def read_cgsmiles(pattern):
             if prev_node is not None:
                 mol_graph.add_edge(prev_node, current, order=prev_bond_order)
 
-            prev_bond_order = bond_order
+            # copies of an expanded node are connected by the default
+            # bond order; the bond order annotated after the node
+            # applies to the bond following the last copy
+            prev_bond_order = default_bond_order
 
             # here we have a double edge
             for cycle_edge in cycle_edges:
@@ -247,6 +253,7 @@ def read_cgsmiles(pattern):
             prev_node = current
             current += 1
 
+        prev_bond_order = bond_order
         cycle_edges = []
         # here we check if the residue considered before is the
         # last residue of a branch (i.e. '...[#residue])'
